@@ -114,13 +114,61 @@ impl Server {
 
 // ---------------------------------------------------------------- cases
 
+/// the collection's keys, ascending: a list, or `n` keys start, start+step, ..
+#[derive(Serialize, Deserialize, Clone, Debug)]
+#[serde(untagged)]
+enum Keys {
+    List(Vec<u64>),
+    Arith { start: u64, step: u64, n: u64 },
+}
+impl Keys {
+    fn to_vec(&self) -> Vec<u64> {
+        match self {
+            Keys::List(v) => v.clone(),
+            Keys::Arith { start, step, n } => (0..*n).map(|i| start + i * step).collect(),
+        }
+    }
+    fn len(&self) -> usize {
+        match self {
+            Keys::List(v) => v.len(),
+            Keys::Arith { n, .. } => *n as usize,
+        }
+    }
+    fn coq(&self) -> String {
+        match self {
+            Keys::List(v) => format!("(KList {})", g_list(v, |k| k.to_string())),
+            Keys::Arith { start, step, n } => format!("(KArith {} {} false {})", start, step, n),
+        }
+    }
+}
+
+/// a run of keys as a Gallina `keys` term: compact when it is an arithmetic
+/// progression of more than 32 keys (checked by re-expansion)
+fn g_items(v: &[u64]) -> String {
+    if v.len() > 32 {
+        let down = v[1] < v[0];
+        let step = if down { v[0] - v[1] } else { v[1] - v[0] };
+        let ok = v.iter().enumerate().all(|(i, k)| {
+            let d = (i as u64).checked_mul(step);
+            match d {
+                None => false,
+                Some(d) => (if down { v[0].checked_sub(d) } else { v[0].checked_add(d) }) == Some(*k),
+            }
+        });
+        if ok {
+            return format!("(KArith {} {} {} {})", v[0], step, g_bool(down), v.len());
+        }
+    }
+    format!("(KList {})", g_list(v, |k| k.to_string()))
+}
+
 #[derive(Serialize, Deserialize, Clone, Debug)]
 #[serde(tag = "t")]
 enum Case {
     /// one full scan
-    Scan { order: String, keys: Vec<u64>, limit: Option<u64> },
+    Scan { order: String, keys: Keys, limit: Option<u64> },
     /// full scans of one collection for many client limits
-    Grid { order: String, keys: Vec<u64>, limits: Vec<Option<u64>> },
+    Grid { order: String, keys: Keys, limits: Vec<Option<u64>> },
 }
 
 #[derive(Deserialize)]
@@ -187,7 +235,7 @@ fn g_pages(pages: &[PageObs], record_all: bool) -> String {
             (Some(t), true) => format!("(Some {})", g_str(t)),
             _ => "None".to_string(),
         };
-        out.push(format!("({}, {}, {})", g_list(&p.items, |k| k.to_string()), g_bool(p.token.is_some()), t));
+        out.push(format!("({}, {}, {})", g_items(&p.items), g_bool(p.token.is_some()), t));
     }
     format!("[{}]", out.join(";"))
 }
@@ -238,9 +286,9 @@ fn lim_band(l: &Option<u64>) -> &'static str {
 fn exec(case: &Case, srv: &mut Option<Server>) -> Line {
     let s = srv.get_or_insert_with(start);
     let cj = serde_json::to_value(case).unwrap();
-    let set_coll = |s: &mut Server, keys: &Vec<u64>| {
+    let set_coll = |s: &mut Server, keys: &Keys| {
         let mut c = s.ctx.write().unwrap();
-        *c = keys.iter().cloned().collect();
+        *c = keys.to_vec().into_iter().collect();
     };
     match case {
         Case::Scan { order, keys, limit } => {
@@ -249,7 +297,7 @@ fn exec(case: &Case, srv: &mut Option<Server>) -> Line {
             let coq = format!(
                 "(CScan {} {} {} {})",
                 g_order(order),
-                g_list(keys, |k| k.to_string()),
+                keys.coq(),
                 g_opt(limit, |l| l.to_string()),
                 g_obs(&o)
             );
@@ -275,7 +323,7 @@ fn exec(case: &Case, srv: &mut Option<Server>) -> Line {
                 rows.push(format!("({}, {})", g_opt(l, |x| x.to_string()), g_obs(&o)));
                 tags.push(format!("gridscan:{}:size{}:limit{}", order, size_band(keys.len()), lim_band(l)));
             }
-            let coq = format!("(CScanGrid {} {} [{}])", g_order(order), g_list(keys, |k| k.to_string()), rows.join(";"));
+            let coq = format!("(CScanGrid {} {} [{}])", g_order(order), keys.coq(), rows.join(";"));
             Line {
                 group: "grid",
                 case: cj,
@@ -291,7 +339,17 @@ fn exec(case: &Case, srv: &mut Option<Server>) -> Line {
 // ---------------------------------------------------------------- generation
 
 /// strictly increasing keys with random gaps; `style` picks the key range
-fn keys(rng: &mut Rng, n: usize, style: usize) -> Vec<u64> {
+fn keys(rng: &mut Rng, n: usize, style: usize) -> Keys {
+    if n > 1000 {
+        // long collections: arithmetic progressions (compact in the case file)
+        let step = [1u64, 1, 2, 7][style % 4];
+        let start = match (style / 4) % 3 {
+            0 => 0,
+            1 => 1 + rng.below(1000) as u64,
+            _ => u64::MAX - step * (n as u64 - 1),
+        };
+        return Keys::Arith { start, step, n: n as u64 };
+    }
     let mut v = Vec::with_capacity(n);
     match style % 4 {
         // dense from 0 or 1
@@ -328,7 +386,7 @@ fn keys(rng: &mut Rng, n: usize, style: usize) -> Vec<u64> {
             }
         }
     }
-    v
+    Keys::List(v)
 }
 
 fn generate(opts: &Opts) -> Vec<Case> {
